@@ -17,6 +17,7 @@ import (
 	"fmt"
 	"math/rand"
 	"os"
+	"runtime"
 	"sort"
 	"strconv"
 	"strings"
@@ -159,6 +160,9 @@ type aprWorld struct {
 	step    int
 	lastDig [2]string // digest of each feature's data at the last observation
 	strange []string  // observations that fit no write
+	// the immediate-verdict phase does its own book-keeping: set before any write is injected
+	instant   func(p, cb int, m *api.Message)
+	onApplied func(p int, d *model.LoadControlLimitListDataType)
 }
 
 func (w *aprWorld) HandleEvent(p api.EventPayload) {
@@ -170,6 +174,10 @@ func (w *aprWorld) HandleEvent(p api.EventPayload) {
 		if p.LocalFeature == w.f[i] {
 			// the event carries the payload object of the write that was applied
 			d, _ := p.Data.(*model.LoadControlLimitListDataType)
+			if w.onApplied != nil {
+				w.onApplied(i, d)
+				continue
+			}
 			w.mu.Lock()
 			if wr := w.byData[d]; wr != nil && wr.p == i {
 				if wr.dropped {
@@ -215,6 +223,10 @@ func newAprWorld(nCb, nPeers int) *aprWorld {
 		for i := 0; i < nCb; i++ {
 			i := i
 			_ = f.AddWriteApprovalCallback(func(m *api.Message) {
+				if w.instant != nil {
+					w.instant(p, i, m)
+					return
+				}
 				dig := w.digest(p) // the data as the callback finds it
 				w.mu.Lock()
 				defer w.mu.Unlock()
@@ -671,6 +683,20 @@ func aprMarginNow() time.Duration {
 	return m
 }
 
+// aprMsgFor: the message a verdict is delivered with - the pointer the callback received, or (one verdict in three, a
+// function of counter and callback) a struct copy of it: same peer, connection, counter and command, another pointer
+func aprMsgFor(m *api.Message, c, cb int) *api.Message {
+	if m == nil || (c+cb)%3 != 1 {
+		return m
+	}
+	cp := *m
+	if m.RequestHeader != nil {
+		hd := *m.RequestHeader // ... header included (the payload objects stay: the data change event carries them)
+		cp.RequestHeader = &hd
+	}
+	return &cp
+}
+
 func aprErr(approve bool) model.ErrorType {
 	if approve {
 		return model.ErrorType{}
@@ -864,6 +890,9 @@ func (x *aprRun) exec(op string) bool {
 		if m == nil {
 			return true
 		}
+		// the API takes any *api.Message naming the write: a share of the verdicts is given with a COPY of the message
+		// the callback was handed (an application that queues api.Message by value), decided by the op's own numbers
+		m = aprMsgFor(m, c, cb)
 		timely, ok := x.timely(wr)
 		if !ok {
 			return false
@@ -1846,7 +1875,7 @@ func aprConcurrentCleanups(r *h.Report, rounds int) {
 		var tasks []*h.Task
 		for _, wr := range wrs {
 			for cb := 0; cb < 2; cb++ {
-				m := wr.msgs[cb]
+				m := aprMsgFor(wr.msgs[cb], int(wr.c), cb)
 				t := h.Go(func() { w.f[0].ApproveOrDenyWrite(m, aprErr(true)) }, aprSite)
 				if site, done, ok := t.Wait(3 * time.Second); !ok || done || site != aprSite {
 					r.Info["concurrent_cleanups"] = "a verdict goroutine did not reach the yield point"
@@ -1968,6 +1997,216 @@ func aprConcurrentCleanups(r *h.Report, rounds int) {
 	r.Info["concurrent_cleanups"] = fmt.Sprintf("%d rounds (verdict goroutines released inside the %v an entity removal takes / around a disconnect): %v, %v", rounds, span, hit, time.Since(phaseStart).Round(time.Millisecond))
 }
 
+// aprImmediateVerdicts: "applied iff every callback approves before the timeout ... regardless of the order in which
+// verdicts interleave" - with the verdict given as EARLY as an application can give it: synchronously inside the
+// callback, before it returns, while the stack is still inside HandleMessage for the write. Other goroutines use the
+// same feature's API meanwhile (SetWriteApprovalTimeout with the value it already has, in a loop), so that the
+// stack's own steps for the write (registering the pending entry, arming the timer, starting the callbacks) have to
+// queue for the feature's mutexes and a verdict can get in between any two of them. Many writes, one after the
+// other; every write whose verdicts all returned long before the timeout must be applied (and acknowledged iff
+// requested) exactly once; a denied one gets exactly one error result and is not applied.
+func aprImmediateVerdicts(r *h.Report, n int) {
+	const T = 1500 * time.Millisecond
+	const bound = 4 * time.Second
+	phaseStart := time.Now()
+	w := newAprWorld(2, 1)
+	defer w.close()
+	if !w.bound(0) {
+		r.Info["immediate_verdicts"] = "world: binding not established"
+		return
+	}
+	w.f[0].SetWriteApprovalTimeout(T)
+	type iw struct {
+		c                         int
+		ack, deny                 bool
+		t0                        time.Time
+		data                      *model.LoadControlLimitListDataType
+		presented, verdicts       int
+		lastRet                   time.Duration
+		applied, succ, derr, terr int
+		terrAt                    time.Duration
+	}
+	var mu sync.Mutex
+	cur := map[uint64]*iw{}
+	byData := map[*model.LoadControlLimitListDataType]*iw{}
+	strange := 0
+	w.instant = func(p, cb int, m *api.Message) {
+		if m == nil || m.RequestHeader == nil || m.RequestHeader.MsgCounter == nil {
+			return
+		}
+		c := uint64(*m.RequestHeader.MsgCounter)
+		mu.Lock()
+		x := cur[c]
+		if x != nil && x.data == nil {
+			x.data = m.Cmd.LoadControlLimitListData
+			byData[x.data] = x
+		}
+		mu.Unlock()
+		if x == nil {
+			return
+		}
+		approve := !(x.deny && cb == x.c%2)
+		w.f[p].ApproveOrDenyWrite(aprMsgFor(m, x.c, cb), aprErr(approve))
+		d := time.Since(x.t0)
+		mu.Lock()
+		x.presented++
+		x.verdicts++
+		if d > x.lastRet {
+			x.lastRet = d
+		}
+		mu.Unlock()
+	}
+	w.onApplied = func(p int, d *model.LoadControlLimitListDataType) {
+		mu.Lock()
+		if x := byData[d]; x != nil {
+			x.applied++
+		} else {
+			strange++
+		}
+		mu.Unlock()
+	}
+	scan := func() {
+		for _, m := range w.conn[0].wr.take() {
+			var d model.Datagram
+			if err := json.Unmarshal(m.b, &d); err != nil || len(d.Datagram.Payload.Cmd) == 0 {
+				continue
+			}
+			c0 := d.Datagram.Payload.Cmd[0]
+			if c0.ResultData == nil || d.Datagram.Header.MsgCounterReference == nil {
+				continue
+			}
+			mu.Lock()
+			x := cur[uint64(*d.Datagram.Header.MsgCounterReference)]
+			switch {
+			case x == nil:
+				strange++
+			case c0.ResultData.ErrorNumber == nil || *c0.ResultData.ErrorNumber == 0:
+				x.succ++
+			case c0.ResultData.Description != nil && string(*c0.ResultData.Description) == aprTimeoutTx:
+				x.terr++
+				x.terrAt = m.t.Sub(x.t0)
+			default:
+				x.derr++
+			}
+			mu.Unlock()
+		}
+	}
+	// contention on the feature's mutexes from its own public API
+	stop := make(chan struct{})
+	var wg sync.WaitGroup
+	for g := 0; g < 4; g++ {
+		wg.Add(1)
+		go func() {
+			defer wg.Done()
+			for {
+				select {
+				case <-stop:
+					return
+				default:
+				}
+				for k := 0; k < 32; k++ {
+					w.f[0].SetWriteApprovalTimeout(T)
+				}
+				runtime.Gosched()
+			}
+		}()
+	}
+	defer func() { close(stop); wg.Wait() }()
+	ops := []string{"cfg 2 1", fmt.Sprintf("immediate-verdicts %d", n)}
+	run := &aprRun{w: w, res: &aprResult{shapes: map[string]int{}}, looks: map[int]*aprLook{}}
+	judge := func(x *iw) (key, detail string, indeterminate bool) {
+		mu.Lock()
+		defer mu.Unlock()
+		who := fmt.Sprintf("write %d (ackRequest %v; 2 callbacks, each answering inside the callback; %d verdict calls returned, the last %v after the write was injected; timeout %v; 4 goroutines calling SetWriteApprovalTimeout meanwhile)", x.c, x.ack, x.verdicts, x.lastRet.Round(time.Microsecond), T)
+		obs := fmt.Sprintf("observed: applied %d, success results %d, denial errors %d, timeout errors %d", x.applied, x.succ, x.derr, x.terr)
+		if x.verdicts < 2 || x.lastRet >= T/2 {
+			return "", "", true // a stall: the verdicts were not safely in time, nothing is decided
+		}
+		nOut := x.applied + x.derr + x.terr
+		switch {
+		case nOut == 0:
+			return "C12/no-outcome", who + ": no outcome. " + obs, false
+		case nOut > 1:
+			return "C12/two-outcomes", who + ": " + obs, false
+		case !x.deny && x.applied != 1:
+			return "C12/approved-write-not-applied", who + ": approved by every callback long before the timeout, yet not applied: a verdict given before the stack had registered the pending write is lost. " + obs, false
+		case x.deny && x.applied != 0:
+			return "C12/denied-write-applied", who + ": " + obs, false
+		case x.applied == 1 && x.succ != h.B2i(x.ack):
+			return "C12/applied-write-not-acknowledged-once", who + ": " + obs, false
+		case x.applied == 0 && x.succ != 0:
+			return "C12/success-result-without-apply", who + ": " + obs, false
+		}
+		return "", "", false
+	}
+	var all []*iw
+	nInd, nApplied, nDenied := 0, 0, 0
+	failed := false
+	for i := 0; i < n && !failed; i++ {
+		c := 21 + i
+		x := &iw{c: c, ack: i%2 == 0, deny: i%5 == 4}
+		cmd, _ := run.aprCmd("pid", c)
+		wc := model.CmdClassifierTypeWrite
+		hd := model.HeaderType{AddressSource: h.FA(aprDev(0), []uint{1}, 1), AddressDestination: w.f[0].Address(), MsgCounter: util.Ptr(model.MsgCounterType(c)), CmdClassifier: &wc}
+		if x.ack {
+			hd.AckRequest = util.Ptr(true)
+		}
+		mu.Lock()
+		cur[uint64(c)] = x
+		mu.Unlock()
+		all = append(all, x)
+		x.t0 = time.Now()
+		if !aprAwait(h.Go(func() { w.inject(0, model.DatagramType{Header: hd, Payload: model.PayloadType{Cmd: []model.CmdType{cmd}}}) }), bound) {
+			r.SpecFail("C12/write-without-outcome:blocked", ops, fmt.Sprintf("immediate verdicts: the write datagram %d was not taken within %v", c, bound))
+			return
+		}
+		for {
+			scan()
+			mu.Lock()
+			done := ((x.applied > 0 && (!x.ack || x.succ > 0)) || x.derr+x.terr > 0) && x.verdicts >= 2 // ... and both verdict calls have returned
+			mu.Unlock()
+			if done || (time.Since(x.t0) > T+bound && h.Kept(x.t0) > (T+bound)/2) {
+				break
+			}
+			if time.Since(x.t0) > 2*time.Millisecond {
+				time.Sleep(200 * time.Microsecond)
+			} else {
+				runtime.Gosched()
+			}
+		}
+		key, detail, ind := judge(x)
+		if ind {
+			nInd++
+		}
+		if key != "" {
+			r.SpecFail(key, ops, detail)
+			failed = true
+		}
+	}
+	if !failed {
+		// nothing may come after a write's outcome
+		time.Sleep(5 * time.Millisecond)
+		scan()
+		for _, x := range all {
+			if key, detail, _ := judge(x); key != "" {
+				r.SpecFail(key, ops, detail)
+				failed = true
+				break
+			}
+			if x.applied == 1 {
+				nApplied++
+			} else if x.deny {
+				nDenied++
+			}
+		}
+	}
+	r.Eval("immediate-verdicts", "")
+	r.Info["immediate_verdicts"] = fmt.Sprintf("%d writes answered inside the callbacks under contention on the feature's mutexes: %d applied, %d denied, %d not judged (verdicts not safely in time), %d unattributable observations, %v", len(all), nApplied, nDenied, nInd, strange, time.Since(phaseStart).Round(time.Millisecond))
+	if !failed && len(all) > 0 && nInd*2 > len(all) {
+		r.Info["immediate_verdicts_indeterminate_under_load"] = fmt.Sprintf("%d of %d writes not judged", nInd, len(all))
+	}
+}
+
 // ---------- the test
 
 func TestApproval(t *testing.T) {
@@ -2052,6 +2291,10 @@ func TestApproval(t *testing.T) {
 
 	if ops := h.ReplayOps("approval"); ops != nil {
 		for _, op := range ops {
+			if strings.HasPrefix(op, "immediate-verdicts") {
+				aprImmediateVerdicts(r, h.Scale(400, 2500))
+				return
+			}
 			if strings.HasPrefix(op, "concurrent-cleanup") {
 				// the failing input is a race: the replay is the phase itself
 				aprConcurrentCleanups(r, h.Scale(160, 600))
@@ -2135,6 +2378,7 @@ func TestApproval(t *testing.T) {
 	wg.Wait()
 
 	aprConcurrentCleanups(r, h.Scale(160, 600))
+	aprImmediateVerdicts(r, h.Scale(400, 2500))
 
 	r.Info["abandoned_histories_by_reason"] = abandoned
 	r.Info["timing_dependent_disagreements_not_reproduced"] = flakes
